@@ -106,6 +106,64 @@ theorem walkFuel_isSome (g : Graph) : ∀ fuel root path walking, PathInv g walk
         · exact hinv.cons hc hn
         · simp only [List.length_cons]; omega
 
+/-- every reference the field walk can follow points into the graph (`Ref.To != nil` everywhere:
+what `assertRefsLink` establishes for a schema set built from a source API) -/
+def Linked (g : Graph) : Prop :=
+  ∀ node ∈ g, ∀ p ∈ node.props, ∀ r, p.field.descend? = some r → r < g.length
+
+instance (g : Graph) : Decidable (Linked g) := by
+  unfold Linked
+  exact List.decidableBAll _ _
+
+theorem walkPropsWith_ok (rec : Nat → List Str → Option (Outcome (List Visit))) (path : List Str)
+    (props : List Prop')
+    (hrec : ∀ p ∈ props, ∀ r, p.field.descend? = some r → ∀ pp, ∃ vs, rec r pp = some (.ok vs)) :
+    ∃ vs, walkPropsWith rec path props = some (.ok vs) := by
+  induction props with
+  | nil => exact ⟨[], rfl⟩
+  | cons p ps ih =>
+    obtain ⟨ws, hws⟩ := ih (fun q hq => hrec q (List.mem_cons_of_mem _ hq))
+    unfold walkPropsWith
+    simp only []
+    cases hd : p.field.descend? with
+    | none => simp only [hws]; exact ⟨_, rfl⟩
+    | some r =>
+      obtain ⟨vs, hvs⟩ := hrec p (by simp) r hd (path ++ [p.name])
+      simp only [hvs, hws]; exact ⟨_, rfl⟩
+
+theorem mem_walkProps (n : Node) : ∀ p ∈ n.walkProps, p ∈ n.props := by
+  intro p hp
+  unfold Node.walkProps at hp
+  cases hk : n.kind <;> simp [hk] at hp <;> exact hp
+
+/-- on a linked graph the repaired walk returns a list of visits (no error) from every schema of
+the graph -/
+theorem walkFuel_ok (g : Graph) (hl : Linked g) : ∀ fuel root path walking, PathInv g walking →
+    root < g.length → g.length + 1 ≤ fuel + walking.length →
+    ∃ vs, walkFuel g fuel root path walking = some (.ok vs) := by
+  intro fuel
+  induction fuel with
+  | zero =>
+    intro root path walking hinv _ hb
+    have := hinv.length_le
+    omega
+  | succ fuel ih =>
+    intro root path walking hinv hroot hb
+    unfold walkFuel
+    cases hc : walking.contains root with
+    | true => exact ⟨[], by simp⟩
+    | false =>
+      simp only [Bool.false_eq_true, if_false]
+      have hn : g[root]? = some g[root] := List.getElem?_eq_getElem hroot
+      rw [hn]
+      simp only []
+      apply walkPropsWith_ok
+      intro p hp r hd pp
+      apply ih
+      · exact hinv.cons hc hn
+      · exact hl g[root] (List.getElem_mem hroot) p (mem_walkProps _ p hp) r hd
+      · simp only [List.length_cons]; omega
+
 theorem walkPropsWith_mono (rec rec' : Nat → List Str → Option (Outcome (List Visit)))
     (h : ∀ r pp x, rec r pp = some x → rec' r pp = some x) (path : List Str) (props : List Prop') :
     ∀ y, walkPropsWith rec path props = some y → walkPropsWith rec' path props = some y := by
